@@ -47,6 +47,7 @@ ActLists == {<<ID, PH, A(n, TRUE, x.v, x.q), PASS>> : n \in {"msg", "logdata", "
    \cup {<<ID, A("t", TRUE, <<"none">>, FALSE), A("t", TRUE, <<"lowercase">>, FALSE), A("nolog", FALSE, << >>, FALSE), PASS>>,
          <<ID, PH, A("deny", FALSE, << >>, FALSE), A("status", TRUE, <<"403">>, FALSE), A("capture", FALSE, << >>, FALSE)>>,
          <<ID, A("severity", TRUE, <<"2">>, FALSE), A("ver", TRUE, <<"v", ".", "1">>, FALSE), A("multimatch", FALSE, << >>, FALSE), PASS>>,
+         <<ID, PH, A("block", FALSE, << >>, FALSE)>>,
          <<ID>>}
 
 CHAIN == A("chain", FALSE, << >>, FALSE)
@@ -70,12 +71,12 @@ Descs == CASE Family = "chain"   -> ChainSeqs
            [] Family = "acts"    -> {[targets |-> DefTargets, op |-> DefOp, acts |-> as] : as \in ActLists}
 
 Style(ud, ua, qa, sc, ct, ind, cm) == [upDir |-> ud, upAct |-> ua, quoteAll |-> qa, spaceAfterComma |-> sc, cont |-> ct, indent |-> ind, comment |-> cm]
-Plain == Style(FALSE, FALSE, FALSE, FALSE, "none", FALSE, FALSE)
+Plain == Style(FALSE, FALSE, FALSE, FALSE, "none", FALSE, "none")
 Styles == IF AllStyles
-          THEN {Style(ud, ua, qa, sc, ct, ind, cm) : ud \in BOOLEAN, ua \in BOOLEAN, qa \in BOOLEAN, sc \in BOOLEAN, ct \in {"none", "sections", "actions"}, ind \in BOOLEAN, cm \in BOOLEAN}
-          ELSE {Plain, Style(TRUE, TRUE, TRUE, TRUE, "none", TRUE, TRUE), Style(FALSE, TRUE, FALSE, TRUE, "sections", TRUE, FALSE),
-                Style(TRUE, FALSE, TRUE, FALSE, "actions", TRUE, TRUE), Style(FALSE, FALSE, TRUE, TRUE, "actions", FALSE, FALSE)}
-MutStyle(s) == s = Plain \/ s = Style(FALSE, FALSE, TRUE, TRUE, "actions", FALSE, FALSE) \/ (AllStyles /\ s = Style(TRUE, TRUE, TRUE, TRUE, "sections", TRUE, TRUE))
+          THEN {Style(ud, ua, qa, sc, ct, ind, cm) : ud \in BOOLEAN, ua \in BOOLEAN, qa \in BOOLEAN, sc \in BOOLEAN, ct \in {"none", "sections", "actions"}, ind \in BOOLEAN, cm \in {"none", "plain", "bs"}}
+          ELSE {Plain, Style(TRUE, TRUE, TRUE, TRUE, "none", TRUE, "plain"), Style(FALSE, TRUE, FALSE, TRUE, "sections", TRUE, "bs"),
+                Style(TRUE, FALSE, TRUE, FALSE, "actions", TRUE, "bs"), Style(FALSE, FALSE, TRUE, TRUE, "actions", FALSE, "none")}
+MutStyle(s) == s = Plain \/ s = Style(FALSE, FALSE, TRUE, TRUE, "actions", FALSE, "none") \/ (AllStyles /\ s = Style(TRUE, TRUE, TRUE, TRUE, "sections", TRUE, "plain"))
 
 NoMut == [kind |-> "none", pos |-> 0]
 Structural(r) == r \notin {"c", "w", "nl", "cmt", "indent"}
